@@ -148,6 +148,33 @@ def modelProgram (externErr : Bool) : List Block → Sexp × Bool
         | .ok es => go rest (encGraph b es :: acc)
     go bs []
 
+/-- the failure kinds that APPLY to a block: every reason for which `build` may legitimately reject it. Which of
+several applicable reasons is reported (and at which instruction) depends on the order of the checks inside
+`build` and is not constrained by C22–C25, which speak about blocks whose graph is built. -/
+def errKinds (externErr : Bool) (b : Block) : List String :=
+  (if externErr then ["extern"] else []) ++
+  (if b.items.any (fun p => p.2.memErr) then ["call"] else []) ++
+  (if b.instrs.any (fun i => i.role == .controlFlow) then ["cf"] else []) ++
+  (if b.items.any (fun p => p.2.role == .composition) then ["unsched"] else [])
+
+/-- the first block the model rejects -/
+def failingBlock (externErr : Bool) : List Block → Option Block
+  | [] => none
+  | b :: rest =>
+    if externErr then some b else
+    match buildBlock b with
+    | .error _ => some b
+    | .ok _ => failingBlock externErr rest
+
+/-- Agreement of the implementation's answer with the model's: exact when the model builds every graph; when the
+model rejects the program, the implementation must reject it too, with a failure kind that applies to the first
+rejected block (not necessarily the kind / instruction the model's order of checks picks). -/
+def agreeOut (externErr : Bool) (blocks : List Block) (mOut : Sexp) (mOk : Bool) (out : Sexp) : Bool :=
+  if mOk then mOut == out else
+  match out, failingBlock externErr blocks with
+  | .list [.atom "err", .atom k, _], some b => (errKinds externErr b).contains k
+  | _, _ => false
+
 /-- Generic program-stream handler shared by the C22–C24 drivers: decode the projected program, run the model,
 compare with the implementation's answer, evaluate `spec` on every (block, implementation graph) pair.
 `spec b nodes es` gets the implementation's node codes and edges. -/
@@ -158,7 +185,7 @@ def handleProgramWith (stream : String) (p out : Sexp)
   | none => .bad s!"undecodable program {p}"
   | some (externErr, blocks) =>
     let (mOut, mOk) := modelProgram externErr blocks
-    let agree := mOut == out
+    let agree := agreeOut externErr blocks mOut mOk out
     let (specOk, tags) : Bool × List String := match out with
       | .list (.atom "ok" :: gs) =>
         if gs.length != blocks.length then (false, []) else
